@@ -15,7 +15,50 @@ def F(name, params, ret=None, **kw):
     return d
 
 
+def C(name, bases=(), self_attrs=None, **kw):
+    d = dict(name=name, bases=list(bases), self_attrs=self_attrs or {})
+    d.update(kw)
+    return d
+
+
+GEOM_REQ = ['Gen_keypoints_utils', 'Gen_bbox_utils', 'Gen_geom_functional', 'Gen_geom_arrays',
+            'Gen_dropout_functional', 'Gen_crops_functional']
+
+
+def class_modules():
+    return [
+        dict(file='dicaugment/augmentations/geometric/transforms.py', coq_module='Gen_cls_geom', requires=GEOM_REQ,
+             classes=[
+                 C('VerticalFlip'), C('HorizontalFlip'), C('SliceFlip'), C('Flip'), C('Transpose',
+                                                                                  methods=['apply', 'apply_to_mask', 'apply_to_bbox', 'apply_to_keypoint']),
+                 C('PadIfNeeded', self_attrs={'border_mode': 'str', 'value': 'Q', 'mask_value': 'Q'}),
+             ]),
+        dict(file='dicaugment/augmentations/geometric/rotate.py', coq_module='Gen_cls_rotate', requires=GEOM_REQ,
+             classes=[C('RandomRotate90')]),
+        dict(file='dicaugment/augmentations/crops/transforms.py', coq_module='Gen_cls_crops', requires=GEOM_REQ,
+             classes=[
+                 C('RandomCrop', self_attrs={'height': 'Z', 'width': 'Z', 'depth': 'Z'}),
+                 C('CenterCrop', self_attrs={'height': 'Z', 'width': 'Z', 'depth': 'Z'}),
+                 C('Crop', self_attrs={'x_min': 'Z', 'y_min': 'Z', 'z_min': 'Z', 'x_max': 'Z', 'y_max': 'Z',
+                                       'z_max': 'Z'}),
+                 C('RandomCropFromBorders'),
+                 C('RandomCropNearBBox'),
+                 C('BBoxSafeRandomCrop', methods=['apply', 'apply_to_bbox']),
+             ]),
+        dict(file='dicaugment/augmentations/dropout/coarse_dropout.py', coq_module='Gen_cls_coarse',
+             requires=GEOM_REQ, classes=[C('CoarseDropout', methods=['apply', 'apply_to_mask'])]),
+        dict(file='dicaugment/augmentations/dropout/grid_dropout.py', coq_module='Gen_cls_grid',
+             requires=GEOM_REQ,
+             classes=[C('GridDropout', methods=['apply', 'apply_to_mask'],
+                        self_attrs={'fill_value': 'Q', 'mask_fill_value': 'opt:Q'})]),
+    ]
+
+
 def modules():
+    return base_modules() + class_modules()
+
+
+def base_modules():
     return [
         dict(file='dicaugment/core/keypoints_utils.py', coq_module='Gen_keypoints_utils', requires=[],
              functions=[
